@@ -40,6 +40,16 @@ def idempotence(cls, obj, what, expected_type):
         again.loads(text)
     except Exception as exc:
         return fails + ["%s: the file written after the upgrade cannot be re-read: %s: %s" % (what, type(exc).__name__, exc)], text
+    if cls.__name__ == "TreeInfo":
+        # "re-loading that file gives an identical object": compare the upgraded object with the re-loaded one, strictly
+        for sec, attrs in (("tree", ("arch", "build_timestamp", "platforms")), ("release", ("name", "short", "version", "is_layered")),
+                           ("stage2", ("mainimage", "instimage")), ("media", ("discnum", "totaldiscs"))):
+            for at in attrs:
+                if getattr(getattr(obj, sec), at) != getattr(getattr(again, sec), at):
+                    fails.append("%s: %s.%s is %r after the upgrade but %r after re-loading the written file (conversion not complete on load)"
+                                 % (what, sec, at, getattr(getattr(obj, sec), at), getattr(getattr(again, sec), at)))
+        if sorted(ti_adapter.flat_variants(obj)) != sorted(ti_adapter.flat_variants(again)) or obj.images.images != again.images.images:
+            fails.append("%s: variants / image tables differ between the upgraded and the re-loaded object" % what)
     try:
         if again.dumps() != text:
             fails.append("%s: second write is not byte-identical (conversion did not happen exactly once)" % what)
